@@ -55,7 +55,7 @@ Lemma dump_parse_roundtrip :
     int_text_ok -> yfloat_text_ok yrepr -> jfloat_text_ok jrepr ->
     forall vr lvs,
       case_class yl vr lvs = 0%N ->
-      Forall (fun lw => leaf_stable yl (fst lw) (snd lw)) lvs ->
+      Forall (fun lw => leaf_stable yl (vr_skip_none vr) (fst lw) (snd lw)) lvs ->
       exists ws, roundtrip yl plain_ok yrepr jrepr dumper_table loader_table vr lvs = Some ws /\
                  Forall2 (fun w' w => veq w' w = true) ws (map snd lvs).
 Proof.
@@ -85,20 +85,26 @@ Proof.
   exists {| lf_key := kx; lf_ty := CUnion [CInt; CNone]; lf_def := VInt 5 |}, VNone, (VInt 5). vm_compute. auto.
 Qed.
 
-(* skip_default: Dict[str,int] default {a:1,b:3}, value {a:1,b:2} -> {b:2} *)
-Lemma skip_default_dict_witness :
-  exists lf w w', rt some_text yaml_skipdef lf w = Some w' /\ veq w' w = false.
-Proof.
-  exists {| lf_key := kx; lf_ty := CDict false CInt; lf_def := VDict [(VStr ka, VInt 1); (VStr kb, VInt 3)] |},
-         (VDict [(VStr ka, VInt 1); (VStr kb, VInt 2)]), (VDict [(VStr kb, VInt 2)]). vm_compute. auto.
-Qed.
-
 (* skip_default: Union[int,float] default 1.0, value 1 -> 1.0 *)
 Lemma skip_default_eq_witness :
   exists lf w w', rt some_text yaml_skipdef lf w = Some w' /\ veq w' w = false.
 Proof.
   exists {| lf_key := kx; lf_ty := CUnion [CInt; CFloat]; lf_def := VFloat (FFin 1 0) |}, (VInt 1), (VFloat (FFin 1 0)).
   vm_compute. auto.
+Qed.
+
+(* save(): a dataclass-typed value Limits(low: Optional[int] = 0, high: Optional[int] = 1) = {low: 0, high: None}:
+   the nested dump drops `high`, the re-parse restores 1 *)
+Definition klow : str := [108;111;119]%N.
+Definition khigh : str := [104;105;103;104]%N.
+Definition limits_ty : cty :=
+  CData [(klow, CUnion [CInt; CNone], VInt 0); (khigh, CUnion [CInt; CNone], VInt 1)].
+Lemma save_nested_none_witness :
+  exists lf w w', rt some_text save_default lf w = Some w' /\ veq w' w = false.
+Proof.
+  exists {| lf_key := kx; lf_ty := CUnion [limits_ty; CNone]; lf_def := VNone |},
+         (VDict [(VStr klow, VInt 0); (VStr khigh, VNone)]),
+         (VDict [(VStr klow, VInt 0); (VStr khigh, VInt 1)]). vm_compute. auto.
 Qed.
 
 (* JSON: float inf is written Infinity, which the loader's table takes for a str: the re-parse is rejected *)
@@ -108,20 +114,23 @@ Lemma json_nonfinite_witness :
 Proof. vm_compute. auto. Qed.
 
 (* the hypotheses of dump_parse_roundtrip hold for a non-trivial parser and configuration:
-   s: str = "1e3" (default "a"), n: Optional[int] = 7 (default None), l: List[str] = ["null", "a: b"] *)
+   s: str = "1e3" (default "a"), n: Optional[int] = 7 (default None), l: List[str] = ["null", "a: b"],
+   d: List[Limits] = [{low: None, high: 2}] (a dataclass-typed value with an explicit None over the field default 0) *)
 Definition ex_leaves : list (leaf * val) :=
   [({| lf_key := [115]%N; lf_ty := CStr; lf_def := VStr ka |}, VStr [49;101;51]%N);
    ({| lf_key := [110]%N; lf_ty := CUnion [CInt; CNone]; lf_def := VNone |}, VInt 7);
    ({| lf_key := [108]%N; lf_ty := CList CStr; lf_def := VList [] |},
-    VList [VStr [110;117;108;108]%N; VStr [97;58;32;98]%N])].
+    VList [VStr [110;117;108;108]%N; VStr [97;58;32;98]%N]);
+   ({| lf_key := [100]%N; lf_ty := CList limits_ty; lf_def := VList [] |},
+    VList [VDict [(VStr klow, VNone); (VStr khigh, VInt 2)]])].
 
 Lemma roundtrip_hyps_example :
   case_class id_yl yaml_skipdef ex_leaves = 0%N /\
-  Forall (fun lw => leaf_stable id_yl (fst lw) (snd lw)) ex_leaves /\
+  Forall (fun lw => leaf_stable id_yl false (fst lw) (snd lw)) ex_leaves /\
   roundtrip id_yl no_plain some_text some_text dumper_table loader_table yaml_skipdef ex_leaves = Some (map snd ex_leaves).
 Proof.
   split; [vm_compute; reflexivity|]. split; [|vm_compute; reflexivity].
-  apply Forall_cons; [|apply Forall_cons; [|apply Forall_cons; [|apply Forall_nil]]];
+  apply Forall_cons; [|apply Forall_cons; [|apply Forall_cons; [|apply Forall_cons; [|apply Forall_nil]]]];
     (right; eexists; (split; [vm_compute; reflexivity|]); eexists; (split; [vm_compute; reflexivity|]);
      vm_compute; reflexivity).
 Qed.
